@@ -265,6 +265,8 @@ pub const ITEMS: &[&str] = &[
     "v(st(x = 300, y))", "v = \"unit\"", "v = \"nope\"", "v(a = 300)", "v(a = 1)", "v(a = 1, b = \"t\", c)", "v(p, q::r)", "v(k = \"1\", j = \"2\")",
     "v(k = \"1\", k = \"2\")", "v = -5", "v = \"-5\"", "v = [1, 2]", "v = |x| x", "v(unit, unit)", "v(\"lit\")", "v = \"true\"", "v = b\"x\"",
     "v = r#type", "v(a = 1, a = 2)", "v = \"\"", "v = 9223372036854775808",
+    // list bodies that are legal tokens but no comma-separated items
+    "v(a b)", "v(x = )", "v(1 + 2)", "v[a, , b]", "v(a = 1 b = 2)", "v{;}", "v(= 1)",
 ];
 
 fn value_span(m: &syn::Meta) -> Option<R> {
